@@ -3,4 +3,4 @@
 From Coq Require Import ExtrOcamlBasic.
 From CssV Require Import Base Regex Tokenizer Quote Gen.Quote Urls UrlQuote.
 Extraction "urls_model.ml" getUrls replaceUrls replaceUrls_style style_urls
-  huri hstring urivalue uritokenvalue stringtokenvalue hstringvalue forbidden tokenize.
+  huri hstring hstring_uri urivalue uritokenvalue stringtokenvalue hstringvalue forbidden tokenize.
